@@ -851,11 +851,14 @@ pub fn execute(plan: &Plan, ctx: &mut Ctx) {
                     let fa = Out::Some(0, a).f32().unwrap_or(0.0);
                     let fb = Out::Some(0, b).f32().unwrap_or(0.0);
                     if fa.is_finite() && fb.is_finite() {
-                        let scale = fa.abs().max(fb.abs()).max(1e-30) as f64;
-                        // the moving average sums in a different order in the two variants
-                        let tol = if kind.starts_with("ma") { 64.0 } else { 4.0 };
-                        ((fa as f64) - (fb as f64)).abs() <= tol * crate::approx::U * scale * 2.0
-                            || ill_conditioned_ma(plan, &kind)
+                        // "the same numbers" up to rounding relative to the contributing samples
+                        // (a re-associated but algebraically equal formula must not be flagged)
+                        let vmax = plan.ops[..n]
+                            .iter()
+                            .filter(|o| o.code == "S")
+                            .map(|o| o.f(1).abs() as f64)
+                            .fold(0.0f64, f64::max);
+                        ((fa as f64) - (fb as f64)).abs() <= 256.0 * crate::approx::U * vmax.max(1e-30)
                     } else {
                         fa.to_bits() == fb.to_bits() || (fa.is_nan() && fb.is_nan())
                     }
@@ -875,8 +878,3 @@ pub fn execute(plan: &Plan, ctx: &mut Ctx) {
     }
 }
 
-/// The moving average of samples of mixed sign can cancel; the variant comparison is
-/// only meaningful when the generator kept the samples one-signed.
-fn ill_conditioned_ma(plan: &Plan, kind: &str) -> bool {
-    kind.starts_with("ma") && plan.get("one_signed") == 0
-}
